@@ -830,6 +830,7 @@ class P(Prop):
         ("TracklibVerif.Props.C01Call", "TV.C01.heap_call_refines", "the same on a heap of Obs objects for a track of pairwise distinct objects; objects outside the track untouched"),
         ("TracklibVerif.Props.C01Call", "TV.C01.call_frame", "no side effects for a call in any form, returning or raising: a name none of its positions designates reads as before and stays listed / unlisted"),
         ("TracklibVerif.Props.C01Call", "TV.C01.list_form_is_history", "the list form is the history of its single calls cut after the first one that raises: same state, returns nothing when all return, else raises what that call raises"),
+        ("TracklibVerif.Props.C01Call", "TV.C01.call_keeps_listed", "nothing disappears behind the caller's back: a call in any form that is not a deleting call (remove / '#DELETE', computeAbsCurv, operate(str)) unlists nothing, returning or raising - an operator failing mid-way with an existing output feature included (what the seeded change C01-9 broke)"),
         ("TracklibVerif.Props.C01World", "TV.C01.derive_copy_is_copies", "Track.copy() (deepcopy with its memo) of a track of pairwise distinct objects makes one new object per position, like the copies above"),
     ]
     partial = []
@@ -839,7 +840,9 @@ class P(Prop):
         "where results are written and that nothing else moves; expression values are property C02's; here they are covered by the correspondence "
         "(model at Float with CPython's float_rem / float_pow / math functions) and by the oracle's direct recomputation",
         "read-back of the result of an '=' expression under its left-hand side is proved only through the refinement (the specification table runs the "
-        "same stack machine), not as a closed formula",
+        "same stack machine), not as a closed formula; likewise that a re-assignment `a=<expr>` (get / remove / create) leaves `a` listed, and that "
+        "operate(str) and computeAbsCurv unlist only '#' names / 'ds' among the names they designate, is not proved (call_keeps_listed covers every "
+        "call that is not one of the three deleting ones; the oracle checks it for all calls)",
         "assignment to 't' (timestamps replaced by floats), 'timestamp' as an operand, the FILTER operator '!' between two features, D2 and the order-statistic "
         "functions in expressions, a complex result of ** , and tables that are already misaligned are outside the model (the driver answers "
         "'unsupported' and the rest of that history is not compared)",
@@ -891,7 +894,10 @@ class P(Prop):
             "by copy / extract / slice / + / extractSpanTime (bounds in either order or given as a track) / loop(add=True) / addObs or insertObs of an Obs.copy() (t[i], getObs, getFirstObs, getLastObs) "
             "from a track with 0..5 earlier calls, then a history on it, then (copy, extractSpanTime) a history on the source again, all tracks observed before and after and the whole session replayed on the heap model; 'short': a list initialiser shorter than the track in the middle of a history (refused / partial overwrite), also sprinkled in every stream; "
             "list forms of operate (1-3 positions, with / without output names, every void family; SUM / aggregates refused) sprinkled in every random stream; "
-            "empty track. A call that raises although all its operands exist and it is well formed is a failure; "
+            "empty track. A call that raises although all its operands exist and it is well formed is a failure; a call the oracle has no expectation for "
+            "(it raised, or its arithmetic is out of the oracle's scope) may have written or created its target, nothing else, and may not have unlisted it "
+            "unless it is remove / '#DELETE' of that name, a '#' name under operate(str), or 'ds' under computeAbsCurv; an observation point that raises is a "
+            "failure, an exception of the harness's own plumbing is a harness error; a derivation (copy / extract / + ...) that raises is not judged; "
             "non-trivial = the history deletes (remove, '#DELETE' or re-assignment by an expression) a column that is not the last one while other features are listed")
 
     # ---------------------------------------------------------------- setup
@@ -1465,6 +1471,18 @@ class P(Prop):
     ROUTED = set("+-/*^><()='{")       # '{' since fix 396f8f9
 
     def observe(self, t):
+        """the observation points of the property (listed names, every read path, len(obs.features), X/Y/Z/T). One of them
+        raising is recorded in the observation (`observe_err`) and judged by the oracle as what it is - the track cannot be
+        read -, it does not abort the run of the history"""
+        try:
+            return self.observe_(t)
+        except BaseException as e:
+            if isinstance(e, KeyboardInterrupt):
+                raise
+            return {"names": [], "cols": {}, "rowlens": [], "bad_cells": [], "X": [], "Y": [], "Z": [], "T": [], "cells_ok": True,
+                    "observe_err": "%s (%s)" % (self.err_of(e), str(e)[:120])}
+
+    def observe_(self, t):
         names = list(t.getListAnalyticalFeatures())
         cols = {}
         cells_ok = True
@@ -1872,6 +1890,8 @@ class P(Prop):
         return a[0] == b[0] and close(a[1], b[1])
 
     def diff_step(self, op, si, sm, with_rows=True):
+        if si.get("observe_err"):
+            return "the implementation's track cannot be observed: %s" % si["observe_err"]
         if si["out"] != sm["out"]:
             # an operator with opaque values that raises inside its numeric part (FILTER_FFT with a kernel longer than the track:
             # ValueError from numpy): the model, which is handed no values, raises IndexError at the write - the kind is not
@@ -1914,6 +1934,8 @@ class P(Prop):
 
     def diff_state(self, si, sm, values=True):
         """two observations of one track (the implementation's, the model's), without outcome"""
+        if si.get("observe_err"):
+            return "the implementation's track cannot be observed: %s" % si["observe_err"]
         if sorted(si["names"]) != sorted(sm["names"]):
             return "names impl=%s model=%s" % (si["names"], sm["names"])
         for nm in si["names"] if values else []:
@@ -2023,11 +2045,25 @@ class P(Prop):
     def spec(self, case, out):
         return self.spec_(case, out)
 
+    @staticmethod
+    def may_delete(op, nm):
+        """is unlisting the feature `nm` part of the documented meaning of the call?"""
+        k = op[0]
+        if k == "remove":
+            return nm == op[1]
+        if k == "expr":
+            return nm.startswith("#")
+        if k == "abscurv":
+            return nm == "ds"
+        return False
+
     def spec_ops(self, tab, ops, steps, label=""):
         n = tab.n
         for k, op in enumerate(ops):
             ob = steps[k]
             where = "%safter call %d %s (%s): " % (label, k, op, ob["out"])
+            if ob.get("observe_err"):
+                return where + "the track can no longer be read (getListAnalyticalFeatures / len(obs.features) / getX..getT): %s" % ob["observe_err"]
             names = ob["names"]
             # every observation carries exactly one value per listed name
             if len(set(names)) != len(names):
@@ -2087,6 +2123,14 @@ class P(Prop):
                     elif nm in names:
                         tab.cols[nm] = ob["cols"][nm]
                     else:
+                        # The call may have (partly) written its target or created it - it may not have DELETED it: a feature that
+                        # was written and whose deletion nobody asked for still reads (its last written values, or what this call
+                        # wrote), whether the call returned or raised. Deletions that ARE the call's documented meaning: remove /
+                        # '#DELETE' of that name, the '#' names (they belong to the evaluator: purged by every operate(str)), and
+                        # the built-in intermediate 'ds' of computeAbsCurv.
+                        if nm in tab.cols and not self.may_delete(op, nm):
+                            return where + "feature %r (last written %s) is no longer listed: the call %s and no deletion of %r was requested" % (
+                                nm, tab.cols[nm], "returned" if ob["out"] == "ok" else "raised " + ob["out"], nm)
                         tab.cols.pop(nm, None)
             # reading a name returns what was last written under it; nothing else changed
             if sorted(names) != sorted(tab.cols):
@@ -2121,7 +2165,9 @@ class P(Prop):
 
     def spec_(self, case, out):
         if "err" in out:
-            return "harness could not run the history: %s" % out
+            # impl() guards every API call of the history and every observation: what is left is the harness's own plumbing
+            # (building the fresh track, bookkeeping) - a harness error (the engine reports an oracle crash), never a violation
+            raise RuntimeError("harness could not run the history: %s" % out)
         n = case["n"]
         tab = Tab(n)
         if case["kind"] != "carry":
@@ -2135,8 +2181,13 @@ class P(Prop):
             return msg
         c = case["carry"]
         if "carry_err" in out:
-            return "%s raised %s" % (c, out["carry_err"])
+            # the derivation itself raised: no track was made, so there is no table the property could speak about (that copy /
+            # extract / + must succeed is not part of the statement); the correspondence with the heap model compares the outcome
+            return None
         src, first = out["src_pre"], out["first"]
+        for what, ob in (("source track", src), ("track derived by %s" % (c[:2],), first)):
+            if ob.get("observe_err"):
+                return "%s: the track cannot be read (getListAnalyticalFeatures / len(obs.features) / getX..getT): %s" % (what, ob["observe_err"])
         same = c[0] in self.SAME_OBJECT
         sel = self.carry_selection(c, n)
         m = c[1] if c[0] == "plus" else 0
